@@ -225,6 +225,19 @@ def fixed_cases():
         (b'asp 1 0 0\n1 0 1 +0001 0 1 -02\n0\n', 'plus-zeros'),
         (b'asp 1 0 0\n1 0 1 1 0 1 - 2\n0\n', 'sign-then-blank'),
         (b'asp 1 0 0\n4 2 \r\nx 0\n0\n', 'crlf-separator'),
+        # layouts of the general description coq/C03/Grammar.v (c03_sound / c03_exact): tokens glued by signs, -0 / +0 / leading zeros,
+        # nothing required after a raw string or a line end, CR line ends, steps glued by a sign; and the truncation boundary cases
+        (b'\t asp +01 -0 007   incremental\r1+0-0+00 1-5+4 3xabc0\t10 hello 1 2\r-0\n5 1 2 0\r\n+0 \n', 'general-layout-glued'),
+        (b'asp 1 0 0\n1+1-0\t2-7 2 3+02-4-0\n+9 1 0 2x1210!\r\n0', 'general-layout-wrule'),
+        (b'asp 1 0 0\n3 -0\n6+0\n-0\n', 'minus-zero-counts'),
+        (b'asp 1 0 0\n3 1 1-0\n', 'end-glued-by-minus'),
+        (b'asp 1 0 0 incremental\n0+0-0', 'steps-glued-by-sign'),
+        (b'asp 1 0 0\n0', 'prefix-of-leading-zero-text'),
+        (b'asp 1 0 0\n01 0 1 1 0 0\n0\n', 'leading-zero-directive-code'),
+        (b'asp 1 0 0\n1 0 1 1 0 0\n', 'truncated-before-final-0'),
+        (b'asp 1 0 0\n1 0 1 1 0 0\n0 \t\r\n x', 'extra-after-trailing-ws'),
+        (b'asp 1 0 0\n4 0\r\n0\n0\n', 'empty-string-crlf-separator'),
+        (b'asp 1 0 0\n4 1\r\n0\n0\n', 'cr-separator-then-lf-byte'),
     ]
     for t, k in T:
         for mode in (0, 1):
@@ -308,7 +321,11 @@ TRUSTED_BASE = ['props/aspif_ref.py judge (independent python recogniser used as
 ASSUMPTIONS = ['texts without NUL bytes (the stream treats NUL as end of input)',
                'number of lines of a text = 1 + number of line terminators (LF, CR, CRLF)',
                'RuleBuilder memory modelled as unbounded lists (no 2^30-byte rule)']
-LEVEL_TEXT = ('Machine-checked proofs (Coq) about an executable model of AspifInput/ProgramReader over the abstract stream: see notes/C03.md for the theorem list; '
+LEVEL_TEXT = ('Machine-checked proofs (Coq) about an executable model of AspifInput/ProgramReader over the abstract stream. EXACT characterisation for every byte list: '
+              'a text is accepted iff it is the rendering of a well-formed program with every field in range under the general layout description coq/C03/Grammar.v '
+              '(c03_sound + c03_complete_general = c03_exact), and then the delivered calls are the denoted ones (c03_exact_calls, c03_denotes_unique); out-of-range '
+              'renderings are rejected (c03_rejects_general), numbers of any magnitude are never altered (c03_number); truncated single-shot texts are rejected '
+              '(c03_truncated), the accepted prefixes of an accepted text are exactly its cuts after a complete step (c03_accepted_prefix, c03_prefix); line / contract / trace theorems for every text; see notes/C03.md; '
               'model tied to the code by differential correspondence (both read modes, four buffer sizes) and an independent python recogniser as oracle.')
 LEVEL_NOTE = 'Trusted: Coq kernel, extraction (cross-checked by vm_compute on a sample), harness, python oracle; C09 stream refinement assumed from C09.'
 TECHNIQUE = 'Coq proof about an executable model + differential correspondence with the implementation'
